@@ -2500,10 +2500,13 @@ func (e *CoreExtension) filterSpaceless(value interface{}, args ...interface{}) 
 		return "", nil
 	}
 
-	// Use regex to find whitespace between tags
-	// This will match one or more whitespace characters between a closing tag and an opening tag
-	re := regexp.MustCompile(`>\s+<`)
-	result := re.ReplaceAllString(str, "><")
+	return removeSpacesBetweenTags(str), nil
+}
 
-	return result, nil
+var spacesBetweenTags = regexp.MustCompile(`>\s+<`)
+
+// removeSpacesBetweenTags deletes the whitespace between a closing ">" and the
+// next "<" (the spaceless filter and the spaceless tag)
+func removeSpacesBetweenTags(s string) string {
+	return spacesBetweenTags.ReplaceAllString(s, "><")
 }
